@@ -244,6 +244,8 @@ func RunDamage(id string, tmpl *Msg, wire []byte, full bool) *DamageObs {
 	// "reused": the damaged message is parsed into a message object that has just parsed the valid one (a receive loop that keeps
 	// one object per message type): whatever the first parse left behind must not make up for what the damage removed
 	reused, rerr := Build(tmpl, true)
+	parser := encoding.NewDefaultUnmarshaller(true)
+	rxbuf := make([]byte, len(wire)+16)
 	try := func(kind string, pos, b int, d []byte) {
 		for _, mode := range []string{"strict", "nonstrict"} {
 			o.Tried++
@@ -251,6 +253,26 @@ func RunDamage(id string, tmpl *Msg, wire []byte, full bool) *DamageObs {
 				if len(o.Accepted) < 40 {
 					o.Accepted = append(o.Accepted, Accepted{kind, pos, b, mode, ToB(d)})
 				}
+			}
+		}
+		// one parser object and one receive buffer for a whole connection: the valid message is parsed from the buffer, the damaged
+		// one is then copied into the same memory and parsed by the same parser
+		if t1, e1 := Build(tmpl, true); e1 == nil && len(d) <= len(rxbuf) {
+			o.Tried++
+			err, pn := safely(func() error {
+				copy(rxbuf, wire)
+				if e := parser.Unmarshal(t1, rxbuf[:len(wire)]); e != nil {
+					return e
+				}
+				copy(rxbuf, d)
+				t2, e2 := Build(tmpl, true)
+				if e2 != nil {
+					return e2
+				}
+				return parser.Unmarshal(t2, rxbuf[:len(d)])
+			})
+			if err == nil && pn == "" && len(o.Accepted) < 40 {
+				o.Accepted = append(o.Accepted, Accepted{kind, pos, b, "strict, same parser object and same receive buffer as the valid message before", ToB(d)})
 			}
 		}
 		if rerr == nil {
